@@ -74,6 +74,7 @@ type ccCall struct {
 	caller  int
 	spec    callSpec
 	attempt int
+	nth     int // index of the call among its caller's planned calls
 	req     interface{}
 	reqWire []byte
 	gate    *Gate
@@ -275,10 +276,10 @@ func (st *ccState) doClose() {
 }
 
 func (st *ccState) caller(ci int, specs []callSpec) {
-	for _, sp := range specs {
+	for i, sp := range specs {
 		sleep(sp.startDelay, siteCallerSleep)
 		for a := 0; ; a++ {
-			c := st.doCall(ci, sp, a)
+			c := st.doCall(ci, sp, a, i)
 			if a >= sp.inUseRetry || !st.cfg.p.IsInUse(c.err) {
 				break
 			}
@@ -287,10 +288,10 @@ func (st *ccState) caller(ci int, specs []callSpec) {
 	}
 }
 
-func (st *ccState) doCall(ci int, sp callSpec, attempt int) *ccCall {
+func (st *ccState) doCall(ci int, sp callSpec, attempt int, nth int) *ccCall {
 	s := st.s
 	p := st.cfg.p
-	c := &ccCall{id: len(st.calls), caller: ci, spec: sp, attempt: attempt}
+	c := &ccCall{id: len(st.calls), caller: ci, spec: sp, attempt: attempt, nth: nth}
 	st.calls = append(st.calls, c)
 	rs := st.nextSerial()
 	c.req, c.reqWire = p.BuildRequest(sp.xid, rs)
@@ -446,7 +447,7 @@ func (st *ccState) onWrite(b []byte, to net.Addr) {
 		}
 	}
 	// planned acceptance (retry mode)
-	if pl, ok := cfg.acceptAt[c.id]; ok && c.caller == 0 && pl.try == try {
+	if pl, ok := cfg.acceptAt[c.nth]; ok && c.caller == 0 && pl.try == try {
 		st.sendReply(b, rkAccept, pl.offset, c.spec.xid)
 	}
 	if cfg.streamPeriod > 0 {
